@@ -807,8 +807,9 @@ func (b *Builder) Finish() error {
 				continue
 			}
 			verifhook.FS("tombstone", p)
-			err := SetTombstone(p, b.opts.RepositoryDescription.ID)
-			b.buildError = err
+			if err := SetTombstone(p, b.opts.RepositoryDescription.ID); err != nil {
+				b.buildError = err
+			}
 			continue
 		}
 		log.Printf("removing old shard file: %s", p)
